@@ -1286,8 +1286,7 @@ Stylesheet::findTemplate(
 
                         if(!patterns->empty() &&
                            !(prevMatchPat != 0 &&
-                             (prevPat != 0 && equals(*prevPat, *patterns)) &&
-                             prevMatchPat->getTemplate()->getPriority() == matchPat->getTemplate()->getPriority()))
+                             prevMatchPat->getTemplate() == matchPat->getTemplate()))
                         {
                             prevPat = patterns;
                             prevMatchPat = matchPat;
